@@ -239,6 +239,11 @@ CLAIMED = {
 }
 # properties part of whose source is translated to Gallina on every run (harness/pytrans.py): (what, theorems about the generated defs)
 TRANSLATED = {
+ 'C17': ('the value computations of sqrt_transform, positive_transform and geotopological_transform (masked assignments included) and '
+         'the loop body of minmax_transform (rdm/transform.py)',
+         'the generated computations are entry-wise sqrt(max(x,0)), max(x,0), the clipped-linear map between the two quantiles judged on the '
+         'ORIGINAL values (thresholds in order) and (x - min) / (max - min) per RDM; sqrt squares back on non-negative entries; geo-topological '
+         'values lie in [0,1] and never reverse an order; minmax values lie in [0,1]'),
  'C01': ('the matrix expressions of calc_rdm_euclidean / calc_rdm_correlation / calc_rdm_mahalanobis / calc_rdm_poisson (rdm/calc.py, from the condition '
          'means to the values handed to _build_rdms)',
          'the generated expressions equal, for every pair of conditions in row-major order, squared distance / P, 1 - Pearson r and '
